@@ -76,6 +76,8 @@ def fresh(task):
         lo, hi = float(problems_dict[pid]["bounds"][0]), float(problems_dict[pid]["bounds"][1])
         for n in sorted({1, 2, 3, D, D + 1} if D <= 10 else {1, 2, 3}):
             B = rs.uniform(lo, hi, size=(n, D))
+            if n >= 3:
+                B[-1] = B[0]          # a batch may contain the same point more than once (converged populations, elitism)
             yb = evaluate(pid, B.copy(), 0)
             alone = [float(evaluate(pid, B[i:i + 1].copy(), 0)[0]) for i in range(n)]
             gap = max(abs(a - b) / max(1.0, abs(b)) for a, b in zip(yb, alone)) if len(yb) == n else float("inf")
